@@ -1,4 +1,5 @@
 """C01 — a passing assertion implies the value really matches the pattern."""
+import likestream
 import semprops
 import vlib
 
@@ -24,6 +25,7 @@ def run(res):
             res.known.append(semprops.WITNESS_C01["what"])
         else:
             res.violation("failing-input", semprops.WITNESS_C01["what"], {"program_body": semprops.WITNESS_C01["body"]})
+    likestream.run(res, "sound")
     semprops.finish(res, "C01", cases, bad, sem_dis, na, nc, failing, passes,
                     "well-typed (type, value, pattern) triples over 16 root types (structs, enums, Option/Result, Box, Vec, tuples, maps) "
                     "with every pattern form, field operations, nesting to depth 6; leaves are written on or just across the boundary of "
